@@ -121,6 +121,7 @@ class Tables:
         self.structs = {}   # name -> [fieldname, ...] (named) or int (tuple arity)
         self.impls = {}     # (file, line) -> (selftype, trait or None)
         self.aliases = {}       # type alias name -> last ident of its target
+        self.alias_full = {}    # type alias name -> full target text
         self.enum_decls = {}    # name -> [(file, variants)]
         self.struct_decls = {}  # name -> [(file, fieldnames | arity)]
         self._std()
@@ -199,6 +200,7 @@ class Tables:
             self.struct_decls.setdefault(m.group(1), []).append((rel, names))
         for m in re.finditer(r'\btype\s+([A-Za-z_]\w*)\s*(?:<[^=;]*>)?\s*=\s*([^;]+);', src):
             self.aliases.setdefault(m.group(1), _last_ident(m.group(2)))
+            self.alias_full.setdefault(m.group(1), m.group(2))
         # impl headers by line
         lines_off = [0]
         for ln in src.split('\n'):
@@ -282,6 +284,34 @@ class Tables:
     def struct_fields(self, ty):
         name, hint = type_name_hint(ty)
         return self._pick(self.struct_decls.get(name), hint, type_path(ty))
+
+
+def skeleton(tables, t):
+    """Type text with aliases expanded, module paths / lifetimes / references / generic-parameter names of aliases
+    dropped: used to tell apart impls written on different instantiations of one generic type through aliases."""
+    t = re.sub(r'//[^\n]*', '', t)
+    for _ in range(8):
+        changed = False
+        for a, full in tables.alias_full.items():
+            m = re.search(r'\b%s\b' % re.escape(a), t)
+            while m:
+                e = m.end()
+                k = e
+                while k < len(t) and t[k] == ' ':
+                    k += 1
+                if k < len(t) and t[k] == '<':
+                    e = _match(t, k, '<', '>') + 1
+                t = t[:m.start()] + full + t[e:]
+                changed = True
+                m = re.search(r'\b%s\b' % re.escape(a), t)
+        if not changed:
+            break
+    t = t.replace('::<', '<')
+    t = re.sub(r"'\w+", '', t)
+    t = re.sub(r'\bmut\b|&|\bdyn\b', '', t)
+    t = re.sub(r'(\w+::)+', '', t)
+    t = re.sub(r'\s+', '', t)
+    return t
 
 
 def _last_ident(t):
